@@ -378,6 +378,16 @@ func vC13StartGated(behave int, order *atomic.Int64) (*vC13Gated, error) {
 	return a, nil
 }
 
+func vC13CreatedByLookup(g string) bool {
+	const by = "created by github.com/semihalev/sdns/middleware/resolver.(*Resolver).lookup"
+	i := strings.Index(g, by)
+	if i < 0 {
+		return false
+	}
+	rest := g[i+len(by):]
+	return rest == "" || rest[0] == ' ' || rest[0] == '\n'
+}
+
 // one snapshot of all goroutines: live queryServer goroutines, and whether a goroutine inside
 // Resolver.lookup is parked in a select
 func vC13Goroutines() (queryServers int, lookupParked bool) {
@@ -391,7 +401,11 @@ func vC13Goroutines() (queryServers int, lookupParked bool) {
 		buf = make([]byte, 2*len(buf))
 	}
 	for _, g := range strings.Split(string(buf), "\n\n") {
-		if strings.Contains(g, "resolver.(*Resolver).queryServer(") {
+		// A goroutine started by `go r.queryServer(...)` that has not run yet shows only the
+		// compiler's wrapper (lookup.gowrap1), not queryServer: count by who created it — lookup
+		// starts no other goroutine —, or the snapshot misses a server that has just been started
+		// (seen once: the barrier then reported one started server too few).
+		if vC13CreatedByLookup(g) || strings.Contains(g, "resolver.(*Resolver).queryServer(") {
 			queryServers++
 		}
 		if strings.Contains(g, "resolver.(*Resolver).lookup(") {
@@ -708,6 +722,8 @@ func TestVerifC13Lab(t *testing.T) {
 		n = v
 	}
 	r := rand.New(rand.NewSource(seed + 77))
+	// stress runs of the gated section alone (not used by the check)
+	gatedOnly := os.Getenv("VERIF_C13_GATED_ONLY") != ""
 	zones := []string{"example.", "lab.example.", "a.lab.example."}
 	failing := []int{vC13Refused, vC13ServFail, vC13NotImp, vC13Refused, vC13ServFail}
 	failing = append(failing, vC13NotAuth)
@@ -769,6 +785,9 @@ func TestVerifC13Lab(t *testing.T) {
 	}
 	// fixed inputs first (VERIF_CORPUS/lab.json: [{"zone": "...", "servers": [codes]}])
 	for _, c := range vC13LabCorpus(t) {
+		if gatedOnly {
+			break
+		}
 		runFanout(c.Servers, c.Zone, "lab-corpus")
 	}
 	// Directed: a large NS set most of which is lame for the question — k >= 3
@@ -781,6 +800,9 @@ func TestVerifC13Lab(t *testing.T) {
 	rounds := 1
 	if n >= 100 {
 		rounds = 3
+	}
+	if gatedOnly {
+		rounds = 0
 	}
 	for round := 0; round < rounds; round++ {
 		for ri, rc := range rcodes {
@@ -813,6 +835,9 @@ func TestVerifC13Lab(t *testing.T) {
 	nxRounds := 6
 	if n >= 100 {
 		nxRounds = 40
+	}
+	if gatedOnly {
+		nxRounds = 0
 	}
 	for i := 0; i < nxRounds; i++ {
 		k := 2 + r.Intn(4)
@@ -958,7 +983,7 @@ func TestVerifC13Lab(t *testing.T) {
 		}
 		runGated(bs, zones[i%len(zones)], prio, r.Intn(2) == 0, cancelAfter, "")
 	}
-	for i := 0; i < n; i++ {
+	for i := 0; i < n && !gatedOnly; i++ {
 		k := 1 + r.Intn(6)
 		var bs []int
 		healthy := 0
@@ -984,7 +1009,7 @@ func TestVerifC13Lab(t *testing.T) {
 		}
 		runFanout(bs, zones[r.Intn(len(zones))], "")
 	}
-	for i := 0; i < 4; i++ {
+	for i := 0; i < 4 && !gatedOnly; i++ {
 		zoneQuota := i%2 == 1
 		name := fmt.Sprintf("shed%d.example.", r.Intn(1000))
 		var o vC13ShedObs
